@@ -86,6 +86,17 @@ Regs(e) ==
     [] e.k = "vec"  -> UNION {Regs(e.l[i]) : i \in 1..Len(e.l)}
     [] OTHER -> {}
 
+(* substitution of a register by a tree (evaluation in a symbolic environment) *)
+RECURSIVE Subst(_, _, _)
+Subst(e, n, t) ==
+  CASE e.k = "reg" -> IF e.n = n THEN t ELSE e
+    [] e.k \in {"slc", "xt"} -> [e EXCEPT !.x = Subst(e.x, n, t)]
+    [] e.k = "comp" -> [e EXCEPT !.parts = [i \in 1..Len(e.parts) |-> [e.parts[i] EXCEPT !.t = Subst(e.parts[i].t, n, t)]]]
+    [] e.k = "tst" -> [e EXCEPT !.c = Subst(e.c, n, t), !.l = Subst(e.l, n, t), !.r = Subst(e.r, n, t)]
+    [] e.k = "uop" -> [e EXCEPT !.r = Subst(e.r, n, t)]
+    [] e.k = "op" -> [e EXCEPT !.l = Subst(e.l, n, t), !.r = Subst(e.r, n, t)]
+    [] OTHER -> e
+
 -----------------------------------------------------------------------------
 (* Signedness of an order/divide/widening operator, from the flags its operands show.
    "s" signed, "u" unsigned, "x" mixed (outside the claim). A constant operand whose top bit is
